@@ -177,10 +177,37 @@ class FileResolver:
                 glob_part = str(Path(*parts[i:]))
                 break
 
+        tool_ignore = self._get_tool_ignore(root)
         for path in root.glob(glob_part):
             if path.is_file() and self._include_spec.match_file(path.name):
-                if not self._exceeds_max_size(path):
-                    yield path
+                if self._exceeds_max_size(path):
+                    continue
+                if self._is_filtered_below(path, root, tool_ignore):
+                    continue
+                yield path
+
+    def _is_filtered_below(
+        self, path: Path, root: Path, tool_ignore: pathspec.PathSpec | None
+    ) -> bool:
+        """
+        Apply to a file found by glob expansion below `root` the filters that directory
+        traversal applies on its way down to it: excluded or ignored directories above it,
+        then the ignore rules for the file itself.
+        """
+        rel = path.relative_to(root)
+        current = root
+        for part in rel.parts[:-1]:
+            rel_dir = (current / part).relative_to(root)
+            if self._is_dir_excluded(part, rel_dir, current, tool_ignore, root):
+                return True
+            current = current / part
+        if self._config.respect_gitignore:
+            chain = self._get_gitignore_chain(current, root)
+            if self._is_gitignored(current.resolve() / path.name, False, chain):
+                return True
+        if tool_ignore and tool_ignore.match_file(rel.as_posix()):
+            return True
+        return False
 
     def _exceeds_max_size(self, path: Path) -> bool:
         """Check if a file exceeds the configured max size. 0 = no limit."""
@@ -208,6 +235,8 @@ class FileResolver:
         """
         ignored = False
         for base, spec in chain:
+            if not path.is_relative_to(base):
+                continue  # reached through a link that leaves the tree
             rel = path.relative_to(base).as_posix() + ("/" if is_dir else "")
             verdict = spec.check_file(rel).include
             if verdict is not None:
